@@ -393,10 +393,18 @@ class NameConverter(ast.NodeTransformer):
 
     def visit_Name(self, node):
         if node.id in self.recurse_syms:
-            return ast.copy_location(
-                old_node=node,
-                new_node=ast.Name(self.ovld_mangled, ctx=node.ctx),
-            )
+            new_node = ast.Name(self.ovld_mangled, ctx=node.ctx)
+            if self.analysis.is_method and isinstance(node.ctx, ast.Load):
+                # The dispatch function is not bound: as a value (map(recurse,
+                # xs), recurse(*args)), it stands for the method of self
+                new_node = ast.Call(
+                    func=ast.Attribute(
+                        value=new_node, attr="__get__", ctx=ast.Load()
+                    ),
+                    args=[ast.Name(id="self", ctx=ast.Load())],
+                    keywords=[],
+                )
+            return ast.copy_location(old_node=node, new_node=new_node)
         elif node.id == self.call_next_sym:
             raise UsageError("call_next should be called right away")
         else:
@@ -422,11 +430,7 @@ class NameConverter(ast.NodeTransformer):
         if any(isinstance(arg, ast.Starred) for arg in node.args) or (
             is_recurse and any(_needs_binding(kw) for kw in node.keywords)
         ):
-            new_node = self.generic_visit(node)
-            if self.analysis.is_method and is_recurse:
-                # The dispatch function is not bound: pass self along
-                new_node.args.insert(0, ast.Name(id="self", ctx=ast.Load()))
-            return new_node
+            return self.generic_visit(node)
 
         cn = node.func.id == self.call_next_sym
         tmp = f"__TMP{next(self.count)}_"
